@@ -400,7 +400,11 @@ impl<Aux> Vm<'_, Aux> {
                     })?;
                 }
                 Instruction::SetProperty => {
-                    let [key, mut instance, value] = self.runtime_data.value_stack.pop_n::<3>();
+                    // the insertion may allocate, and therefore collect: the operands stay on
+                    // the stack until it is done
+                    let stack = &self.runtime_data.value_stack;
+                    let [key, mut instance, value] =
+                        [stack.peek_last(0), stack.peek_last(1), stack.peek_last(2)];
                     let table = get_table_mut(&mut instance).map_err(|err| {
                         payload_to_error(err, src_ptr, &self.runtime_data.call_stack)
                     })?;
@@ -413,6 +417,7 @@ impl<Aux> Vm<'_, Aux> {
                         .map_err(|err| {
                             payload_to_error(err, src_ptr, &self.runtime_data.call_stack)
                         })?;
+                    self.runtime_data.value_stack.pop_n::<3>();
                 }
                 Instruction::BeginForEach => {
                     instr_execution::begin_for_each(self, &program.bytecode, instr_ptr).map_err(
@@ -669,7 +674,10 @@ impl<Aux> Vm<'_, Aux> {
                     payload_to_error(err, src_ptr, &self.runtime_data.call_stack)
                 })?,
                 Instruction::NthRow => {
-                    let [i, mut instance] = self.runtime_data.value_stack.pop_n::<2>();
+                    // the row is allocated below, which may collect: the operands stay on the
+                    // stack until the row is complete
+                    let stack = &self.runtime_data.value_stack;
+                    let [i, mut instance] = [stack.peek_last(0), stack.peek_last(1)];
                     let table = get_table_mut(&mut instance).map_err(|err| {
                         payload_to_error(err, src_ptr, &self.runtime_data.call_stack)
                     })?;
@@ -709,6 +717,7 @@ impl<Aux> Vm<'_, Aux> {
                         let v = self.init_string("value")?;
                         row_table.insert(Value::Object(k.0), key)?;
                         row_table.insert(Value::Object(v.0), value)?;
+                        self.runtime_data.value_stack.pop_n::<2>();
                         self.stack_push(Value::Object(row.0))?;
                         Ok(())
                     })()
@@ -717,14 +726,17 @@ impl<Aux> Vm<'_, Aux> {
                     })?;
                 }
                 Instruction::AppendTable => {
-                    let mut instance = self.stack_pop();
-                    let value = self.stack_pop();
+                    // appending may allocate, and therefore collect: the operands stay on the
+                    // stack until it is done
+                    let mut instance = self.runtime_data.value_stack.peek_last(0);
+                    let value = self.runtime_data.value_stack.peek_last(1);
                     let table = get_table_mut(&mut instance).map_err(|err| {
                         payload_to_error(err, src_ptr, &self.runtime_data.call_stack)
                     })?;
                     table.append(value).map_err(|err| {
                         payload_to_error(err, src_ptr, &self.runtime_data.call_stack)
                     })?;
+                    self.runtime_data.value_stack.pop_n::<2>();
                 }
 
                 Instruction::PopTable => {
